@@ -24,39 +24,48 @@ PROOF_TIMEOUT = {"quick": 1500, "thorough": 3300}
 EXHAUSTIVE = False
 MANIFEST = {
     "category": "proof",
-    "text": ("T4/T6 (partial proof): closed forms of the lunar event finders (perigee/apogee, node passages, maximum declinations; not moon_phase: evaluation too expensive) proved on the regenerated code with every coefficient written out, refusals (TypeError/ValueError), deviation bound C by interval arithmetic and ordering/spacing through Spec/MoonFinder.v; further: the regenerated model of Moon.py is evaluated symbolically in the real-number instance "
-             "(pyrun driver with innermost-first arithmetic and the Angle constructor/reduce_deg/to_positive abstracted through "
-             "lemmas proved on the generated Angle model for EVERY real argument): Angle(Angle.reduce_deg(x)).to_positive() = "
-             "x mod 360 in [0,360); closed forms of the mean node / mean perigee longitudes (secular rates = the linear "
-             "coefficients -1934.1362891 / +4069.0137287 deg/century, higher-order part bounded by interval for |T|<=60); "
-             "illuminated fraction = (1+cos i)/2 in [0,1]; spec lemmas (Spec/MoonFinder.v): lunation index non-decreasing in "
-             "the fractional year and onto, results strictly increasing in k and one mean month +-(2C+D) apart.  Parallax "
-             "relation, envelopes, daily motion, closed forms of the four finders, agreement of the finders with the position "
-             "theory and totality on every calendar day are searched on the implementation with the property's numbers "
-             "(symbolic evaluation of the two 60-row table loops of the position theory exceeded the memory budget); bit-exact "
-             "correspondence of every anchored function."),
-    "technique": "pyrun symbolic evaluation with abstracted callees + lra/interval in the ideal instance; spec lemmas by lra/lia; "
-                 "generated model + bit-exact differential correspondence; Python property oracle with the property's tolerances",
+    "text": ("T4/T6 (partial proof) on the model regenerated from Moon.py, real-number instance: (1) argument reduction "
+             "Angle(Angle.reduce_deg(x)).to_positive() = x mod 360 in [0,360) for EVERY real x; JDE2000 = 2451545; "
+             "(2) mean node / mean perigee longitudes = explicit polynomials in T (linear coefficients -1934.1362891 / "
+             "+4069.0137287 deg/century; what is proved about the 'rate' is that the non-linear part stays <= 8.2 / 40.6 deg "
+             "on |T| <= 60); (3) illuminated fraction = (1+cos i)/2 with the explicit Meeus (48.4) angle i, hence in [0,1]; "
+             "(4) closed forms of the event finders with every coefficient written out, callee values (Epoch.get_date / "
+             "is_leap / get_doy, Epoch(x), Angle(0,0,p)) as satisfiable hypotheses: node passages (both) and apogee in the "
+             "quick tier, perigee and both maximum declinations in the thorough tier only (T15_* in C15_heavy.v, not in "
+             "THEOREMS); moon_phase closed form NOT proved (too expensive), its refusals are; TypeError / ValueError refusals "
+             "of all four finders for the listed bad arguments; (5) C15_finder_timing: on the window -41 <= T <= 21 the "
+             "result deviates from J0 + B k by at most C (interval arithmetic on the proved coefficients), 2C < B, hence "
+             "results are strictly ordered and B +- 2C apart IN THE INDEX k (not in the query epoch); (6) spec lemmas "
+             "(Spec/MoonFinder.v): index round((year-y0)*rate) monotone and onto; C15_finder_spacing is spec-only and not "
+             "tied to the code (superseded by (5)).  NOT proved, searched on the implementation with the property's numbers: "
+             "parallax = asin(6378.14/Delta), distance/latitude envelopes, daily motion, agreement of the illuminated "
+             "fraction with the geometry, agreement of the finders with the position theory, monotonicity in the query "
+             "epoch, 1.6-month clause (refuted: known finding), totality on every calendar day.  Bit-exact correspondence "
+             "of every anchored function."),
+    "technique": "pyrun/pyrunv symbolic evaluation with abstracted callees + lra/interval in the ideal instance; spec lemmas by "
+                 "lra/lia; generated model + bit-exact differential correspondence; Python property oracle with the property's tolerances",
     "design_ref": "8/C15",
 }
-EXPLANATION = ("Ideal-instance theorems on the generated Moon/Angle model: argument reduction to [0,360) for every real, closed "
-               "forms and secular rates of the node/perigee longitudes, illuminated fraction (1+cos i)/2 in [0,1]; hand-written "
-               "finder spec (index monotone and onto, spacing of results).  All numeric clauses of the property (envelopes, "
-               "parallax relation, daily motion, finder events vs position theory, spacing, totality) are evaluated by the "
-               "search oracle on the implementation; every anchored function is compared bit for bit with its model.")
+EXPLANATION = ("Ideal-instance theorems on the regenerated Moon/Angle model: argument reduction to [0,360) for every real, "
+               "JDE2000, explicit polynomials of the node/perigee longitudes (non-linear part bounded on |T|<=60), illuminated "
+               "fraction (1+cos i)/2 with the explicit angle i; closed forms (every coefficient) of node passages and apogee "
+               "(quick) and perigee / maximum declinations (thorough only), refusals of all four finders, deviation bound C and "
+               "ordering/spacing in the index k on -41<=T<=21 (C15_finder_timing); moon_phase closed form, parallax relation, "
+               "envelopes, daily motion, finder-vs-position agreement, behaviour in the query epoch and totality are evaluated by "
+               "the search oracle on the implementation; every anchored function is compared bit for bit with its model.")
 CLAUSES = {
     "parallax = asin(6378.14/Delta)": "unproved (searched to 1e-9 deg at every sampled instant + bit-exact correspondence of geocentric_ecliptical_pos): symbolic evaluation of the two 60-row table loops did not fit the memory budget",
-    "illuminated fraction in [0,1] and of the form (1+cos i)/2": "proved [ideal, closed form of illuminated_fraction_disk; JDE2000 = 2451545 proved (C15_jde2000)]; agreement with the Sun-Earth-Moon geometry (0.01): unproved (searched)",
-    "node/perigee longitudes move at their secular rates": "proved [ideal: explicit polynomials in T; linear coefficients -1934.1362891 / +4069.0137287 deg/century; higher-order part <= 8.2 / 40.6 deg on |T|<=60 by interval]; true node: searched (within 1.97 deg of the mean node)",
+    "illuminated fraction in [0,1] and of the form (1+cos i)/2": "proved [ideal]: illuminated_fraction_disk = (1+cos i)/2 with the explicit angle i = 180 - D - 6.289 sin M' + 2.1 sin M - 1.274 sin(2D-M') - 0.658 sin 2D - 0.214 sin 2M' - 0.11 sin D (D, M, M' the code's polynomials; Angle reductions removed by congruence mod 360), hence in [0,1]; agreement with the Sun-Earth-Moon geometry (0.01): unproved (searched)",
+    "node/perigee longitudes move at their secular rates": "proved [ideal] as: the longitudes are explicit polynomials in T with linear coefficients -1934.1362891 / +4069.0137287 deg/century and the non-linear part is <= 8.2 / 40.6 deg on -60 <= T <= 60 (interval); no statement about the instantaneous rate; true node: searched (within 1.97 deg of the mean node)",
     "reduction of large arguments": "proved [ideal, every real x]: Angle(Angle.reduce_deg(x)).to_positive() = x mod 360 in [0,360)",
     "distance 356000-407000 km, |latitude| <= 5.35 deg": "unproved (searched)",
     "longitude advances 11.5-15.6 deg/day": "unproved (searched)",
-    "finders: k from the rounded fractional year is non-decreasing and takes every value": "proved [spec]",
-    "results strictly increasing in k, consecutive results one mean month +-(2C+D) apart when 2C+D < B": "proved [spec]",
+    "finders: k from the rounded fractional year is non-decreasing and takes every value": "proved [spec, Spec/MoonFinder.v]; tied to the code through the finder closed forms, whose index is literally Rround_nd((year - y0) * rate) 0 + target offset",
+    "results strictly increasing in k, consecutive results one mean month +-(2C+D) apart when 2C+D < B": "C15_finder_spacing: [spec] NOT tied to the code by proof (it needs |c k| <= C for every integer k, the generated corrections are bounded only on the window -41 <= T <= 21); the code-tied statement is C15_finder_timing (row 'deviation ...')",
     "moon_phase closed form (4 targets)": "unproved (searched + bit-exact correspondence): symbolic evaluation of one target exceeds 40 min / 6 GB (18 reduced angles, 45 terms); its refusals are proved",
     "finder closed forms: perigee, northern / southern maximum declination (T15_* in C15_heavy.v)": "proved in the thorough tier [ideal; same hypotheses; 5-7 min and 6-8 GB each, therefore not compiled in quick and not listed in THEOREMS]",
     "finder closed forms on the regenerated code (ascending/descending node passages, apogee; quick tier): index k = round((year - y0) rate, 0) + target offset from the fractional year, result Epoch(mean(k) + periodic terms) [+ Angle(parallax) / Angle(declination)], every coefficient": "proved [ideal; Epoch.get_date/is_leap/get_doy values, Epoch(x) and Angle(0,0,p) as hypotheses]",
-    "deviation |result - (J0 + B k)| <= C on -41 <= T <= 21 with 2C < B (C = 1.28 / 1.96 / 4.20 / 2.16 d nodes / apogee / perigee / declination) => consecutive results strictly ordered, B +- 2C apart, never backwards": "proved [ideal + spec: interval arithmetic on the proved coefficients, C15_finder_timing]",
+    "deviation |result - (J0 + B k)| <= C on -41 <= T <= 21 with 2C < B (C = 1.28 / 1.96 / 4.20 / 2.16 d nodes / apogee / perigee / declination) => consecutive results strictly ordered, B +- 2C apart, never backwards": "proved [ideal + spec: interval arithmetic on the proved coefficients, C15_finder_timing; tied to the generated finders; ordering/spacing is in the index k, NOT in the query epoch: 'never backwards as the query advances' additionally needs the fractional year to be non-decreasing in the epoch (C16) and is searched]",
     "results within 1.6 months of the query": "refuted on the unchanged tree for late years (known finding query-distance-1.6-months: moon_phase(Epoch(2600,1,12),'last') is 1.604 months later; up to 1.93 at year 4000); calibrated gross bound 2.0 months searched (key query-distance-gross)",
     "finder instants agree with the position theory (0.06 deg / 0.25 d / 0.02 deg / 0.25 d, 0.15 deg)": "unproved (searched at every distinct event of the sample years)",
     "every target string; TypeError / ValueError": "proved [ideal] for every finder: TypeError for a None/bool/int/float/str epoch or a non-string target, ValueError for the listed wrong strings (empty, wrong case, other finders' targets); arbitrary strings searched",
@@ -324,7 +333,10 @@ class Oracle:
                     q += step; continue
                 off = (rj - q) / per
                 if not abs(off) <= 1.6:
-                    self.add("query-distance-1.6-months", "Moon.%s(Epoch(%r), %r) -> JDE %r, %.3f months from the query" % (fn, q, tg, rj, off), [fn, tg, q], rp)
+                    # known finding: drift of the year-fraction index, late years only and always later than the query;
+                    # anything else beyond 1.6 months gets its own key
+                    late = off > 0 and q >= 2634166.5      # 1 Jan 2500
+                    self.add("query-distance-1.6-months" if late else "query-distance-1.6-months-other", "Moon.%s(Epoch(%r), %r) -> JDE %r, %.3f months from the query" % (fn, q, tg, rj, off), [fn, tg, q], rp)
                 if not abs(off) <= 2.0:
                     self.add("query-distance-gross", "Moon.%s(Epoch(%r), %r) -> JDE %r, %.3f months from the query (> 2.0)" % (fn, q, tg, rj, off), [fn, tg, q], rp)
                 if prev is not None:
